@@ -15,6 +15,9 @@ CLAIMED = {
  "C09": dict(technique="static analysis: dominance (written-bit under err==nil), provenance (status slice of the called shard, index/replica of one iteration), error-flow, and a bounded path-sensitive simulation over SSA (phi resolution, nil-ness and integer-interval facts) deciding that no success return follows a failed last attempt in the shard loop and in the bounded retry loop",
              text="Every path of the proxy's replication client is examined: a success report must be preceded by a successful last attempt per tier, written bits only follow successful sends to the same replica. This is the bookkeeping the property rests on; the remote side and the circuit library are summarised, not analysed.",
              note="Trusted: go/ssa; summaries of cep21/circuit Execute and multierr.Combine; PATHSIM visits each block at most 3 times per path.", ref="§3 C09"),
+ "C04": dict(technique="static analysis: non-zero-divisor analysis over the fetch call scope (constants, max(), dominating comparisons, predicates, all call sites, frozen invariants), bounds-check-before-index rule for binary-search results, dominance/provenance rules for recover, not-found handling and result placement, lossless cache-key rule",
+             text="For every path of the fetch code: no division by a possibly-zero value, no unchecked search result used as index, panics of one fraction are converted to errors, absent ids are skipped and never overwrite found documents, one response per id. These are necessary for 'absent IDs never error, crash or hang'; byte equality with the ingested document is not decided.",
+             note="Trusted: go/ssa; frozen divisor invariants and the list of request-content functions in checker/internal/props/c04.go; interface calls resolved to repo implementations by types.Implements.", ref="§3 C04"),
 }
 
 NOT_YET = "check not built yet in this round (planned in DESIGN.md §3); nothing is claimed for it"
